@@ -3,7 +3,7 @@ open Wire
 
 (* request (one line, blank separated):
    run MODE CAP LIMIT FCAP  NC (id sink append stdout echo drain closes exkind excode)*  NB id*  NF (id hex)*  NO op*
-   op: P dk id np hex* | C id | F id(-1 = all) | S id | G id | K id | I | X code | E | W id *)
+   op: P dk id np hex.. / R dk id hex / C id | F id(-1 = all) | S id | G id | K id | I | X code | E | W id *)
 
 let default_spec = { c_sink = None; c_append = []; c_stdout = []; c_echo = false; c_drain = false; c_closes = false; c_exit = Exited Z0 }
 
@@ -43,47 +43,59 @@ let handle toks =
       let b = bytes_of_hex (next ()) in
       fs := !fs @ [ (z_of_int id, b) ]
     done;
-    let no = nexti () in
-    let ops = ref [] in
-    for _ = 1 to no do
-      let o = match next () with
-        | "P" ->
-          let dk = next () in
-          let id = z_of_int (nexti ()) in
-          let np = nexti () in
-          let ps = ref [] in
-          for _ = 1 to np do ps := !ps @ [ bytes_of_hex (next ()) ] done;
-          let d = match dk with
-            | "o" -> DStdout | "d" -> DDash | "v" -> DDevStdout
-            | "t" -> DRedir (RTrunc, id) | "a" -> DRedir (RAppend, id) | "p" -> DRedir (RPipe, id)
-            | _ -> failwith "bad dest" in
-          Print (d, !ps)
-        | "C" -> Close (z_of_int (nexti ()))
-        | "F" -> let i = nexti () in Fflush (if i < 0 then None else Some (z_of_int i))
-        | "S" -> System (z_of_int (nexti ()))
-        | "G" -> GetlineFile (z_of_int (nexti ()))
-        | "K" -> GetlineCmd (z_of_int (nexti ()))
-        | "I" -> GetlineStdin
-        | "X" -> Exit (z_of_string (next ()))
-        | "E" -> RuntimeError
-        | "W" -> AwaitFile (z_of_int (nexti ()))
-        | t -> failwith ("bad op " ^ t) in
-      ops := !ops @ [ o ]
-    done;
+    (* one or more runs on the same interpreter: groups of NO followed by that many ops, until the tokens end *)
+    let parse_ops () =
+      let no = nexti () in
+      let ops = ref [] in
+      for _ = 1 to no do
+        let dest_of dk id = match dk with
+          | "o" -> DStdout | "d" -> DDash | "v" -> DDevStdout
+          | "t" -> DRedir (RTrunc, id) | "a" -> DRedir (RAppend, id) | "p" -> DRedir (RPipe, id)
+          | _ -> failwith "bad dest" in
+        let o = match next () with
+          | "P" ->
+            let dk = next () in
+            let id = z_of_int (nexti ()) in
+            let np = nexti () in
+            let ps = ref [] in
+            for _ = 1 to np do ps := !ps @ [ bytes_of_hex (next ()) ] done;
+            Print (dest_of dk id, !ps)
+          | "R" ->
+            let dk = next () in
+            let id = z_of_int (nexti ()) in
+            PrintRec (dest_of dk id, bytes_of_hex (next ()))
+          | "C" -> Close (z_of_int (nexti ()))
+          | "F" -> let i = nexti () in Fflush (if i < 0 then None else Some (z_of_int i))
+          | "S" -> System (z_of_int (nexti ()))
+          | "G" -> GetlineFile (z_of_int (nexti ()))
+          | "K" -> GetlineCmd (z_of_int (nexti ()))
+          | "I" -> GetlineStdin
+          | "X" -> Exit (z_of_string (next ()))
+          | "E" -> RuntimeError
+          | "W" -> AwaitFile (z_of_int (nexti ()))
+          | t -> failwith ("bad op " ^ t) in
+        ops := !ops @ [ o ]
+      done;
+      !ops in
+    let progs = ref [ parse_ops () ] in
+    while !q <> [] do progs := !progs @ [ parse_ops () ] done;
     let spec n = let i = int_of_z n in (try List.assoc i !specs with Not_found -> default_spec) in
     let env = { e_spec = spec; e_bad = (fun n -> List.mem (int_of_z n) !bad);
                 e_mode = (match mode with "osfile" -> OsFile | "unbuf" -> Unbuf | _ -> Buf (nat_of_int cap));
                 e_fcap = nat_of_int fcap } in
-    let s0 = init_state !fs (if limit < 0 then None else Some (nat_of_int limit)) in
-    let (s, r) = run env s0 !ops in
-    if s.st_unmod then "unmod" else begin
-      let res = match r with RStatus c -> "s:" ^ string_of_z c | RError -> "e" in
-      let files = List.sort compare (List.map (fun (n, b) -> (int_of_z n, b)) s.st_fs) in
-      let fss = if files = [] then "-" else
-          String.concat "," (List.map (fun (n, b) -> string_of_int n ^ ":" ^ hex_of_bytes b) files) in
-      let obs = List.rev_map (function ORet v -> "r:" ^ string_of_z v | OLine l -> "l:" ^ hex_of_bytes l) s.st_obs in
-      let obss = if obs = [] then "-" else String.concat "," obs in
-      Printf.sprintf "ok res=%s out=%s fs=%s obs=%s" res (hex_of_bytes s.st_sink.sk_data) fss obss
+    let lim = if limit < 0 then None else Some (nat_of_int limit) in
+    let s0 = init_state !fs lim in
+    let results = run_many env s0 lim !progs in
+    if List.exists (fun (s, _) -> s.st_unmod) results then "unmod" else begin
+      let one (s, r) =
+        let res = match r with RStatus c -> "s:" ^ string_of_z c | RError -> "e" in
+        let files = List.sort compare (List.map (fun (n, b) -> (int_of_z n, b)) s.st_fs) in
+        let fss = if files = [] then "-" else
+            String.concat "," (List.map (fun (n, b) -> string_of_int n ^ ":" ^ hex_of_bytes b) files) in
+        let obs = List.rev_map (function ORet v -> "r:" ^ string_of_z v | OLine l -> "l:" ^ hex_of_bytes l) s.st_obs in
+        let obss = if obs = [] then "-" else String.concat "," obs in
+        Printf.sprintf "ok res=%s out=%s fs=%s obs=%s" res (hex_of_bytes s.st_sink.sk_data) fss obss in
+      String.concat " ;; " (List.map one results)
     end
   | op :: _ -> "driver-error unknown-op " ^ op
   | [] -> "driver-error empty"
